@@ -11,8 +11,9 @@ Add Field Kfield15 : HK.
 Notation "0" := (f0 K).
 Notation "1" := (f1 K).
 Infix "+" := fadd. Infix "*" := fmul. Infix "-" := fsub. Infix "/" := fdiv.
+Implicit Types (v : list K) (n t c x s : K) (small isz : K -> bool).
 
-Lemma fdiv_def15 a b : a / b = a * finv b.
+Lemma fdiv_def15 (a b : K) : a / b = a * finv b.
 Proof. exact (Fdiv_def HK a b). Qed.
 
 Lemma sumsq_cons x v : sumsq K (x :: v) = x * x + sumsq K v.
@@ -39,7 +40,7 @@ Proof.
   - rewrite IH, Hx. ring.
 Qed.
 
-Lemma sq_nonzero n s : n * n = s -> s <> 0 -> n <> 0.
+Lemma sq_nonzero (n s : K) : n * n = s -> s <> 0 -> n <> 0.
 Proof. intros H Hs Hn. apply Hs. rewrite <- H, Hn. ring. Qed.
 
 (* ---------- unit_cell / orientation ---------- *)
@@ -76,15 +77,15 @@ Lemma unit_cell_length small n v : length (unit_cell small n v) = length v.
 Proof. unfold unit_cell. apply map_length. Qed.
 
 (* ---------- set_cell ---------- *)
-Lemma set_cell_scaling is0 n t v :
-  is0 n = false -> n <> 0 -> set_cell is0 n t v = map (fmul (t / n)) v.
+Lemma set_cell_scaling isz n t v :
+  isz n = false -> n <> 0 -> set_cell isz n t v = map (fmul (t / n)) v.
 Proof.
   intros Hs Hn. unfold set_cell. rewrite unit_cell_scaling by assumption. unfold scale_cell.
   rewrite map_map. apply map_ext. intros x. field. exact Hn.
 Qed.
 
-Lemma set_cell_sumsq is0 n t v :
-  n * n = sumsq K v -> n <> 0 -> is0 n = false -> sumsq K (set_cell is0 n t v) = t * t.
+Lemma set_cell_sumsq isz n t v :
+  n * n = sumsq K v -> n <> 0 -> isz n = false -> sumsq K (set_cell isz n t v) = t * t.
 Proof.
   intros H Hn Hs. rewrite set_cell_scaling by assumption. rewrite sumsq_scale, <- H. field. exact Hn.
 Qed.
@@ -95,39 +96,39 @@ Proof.
 Qed.
 
 (* all 2x2 minors of (v'; v) vanish: v' is parallel to v *)
-Lemma set_cell_parallel is0 n t v i j :
-  is0 n = false -> n <> 0 ->
-  nth i (set_cell is0 n t v) 0 * nth j v 0 = nth j (set_cell is0 n t v) 0 * nth i v 0.
+Lemma set_cell_parallel isz n t v i j :
+  isz n = false -> n <> 0 ->
+  nth i (set_cell isz n t v) 0 * nth j v 0 = nth j (set_cell isz n t v) 0 * nth i v 0.
 Proof.
   intros Hs Hn. rewrite set_cell_scaling by assumption. rewrite !nth_scale. ring.
 Qed.
 
-Lemma set_cell_zero is0 n t v :
-  Forall (fun x => x = 0) v -> set_cell is0 n t v = zeros v.
+Lemma set_cell_zero isz n t v :
+  Forall (fun x => x = 0) v -> set_cell isz n t v = zeros v.
 Proof.
   intros Hz. unfold set_cell, scale_cell, unit_cell, zeros. rewrite map_map.
   induction Hz as [|x v Hx _ IH]; simpl.
   - reflexivity.
-  - rewrite IH. f_equal. rewrite Hx. destruct (is0 n).
+  - rewrite IH. f_equal. rewrite Hx. destruct (isz n).
     + ring.
     + rewrite fdiv_def15. ring.
 Qed.
 
 (* target zero: the cell becomes (and by set_cell_zero stays) zero *)
-Lemma set_cell_target_zero is0 n v : set_cell is0 n 0 v = zeros v.
+Lemma set_cell_target_zero isz n v : set_cell isz n 0 v = zeros v.
 Proof.
   unfold set_cell, scale_cell, unit_cell, zeros. rewrite map_map. apply map_ext. intros x. ring.
 Qed.
 
-Lemma set_cell_length is0 n t v : length (set_cell is0 n t v) = length v.
+Lemma set_cell_length isz n t v : length (set_cell isz n t v) = length v.
 Proof. unfold set_cell, scale_cell. rewrite map_length. apply unit_cell_length. Qed.
 
 (* a second assignment only sees the direction: targets compose as expected *)
-Lemma set_cell_twice is0 n t n' t' v :
-  is0 n = false -> n <> 0 -> is0 n' = false -> n' <> 0 ->
-  set_cell is0 n' t' (set_cell is0 n t v) = map (fmul ((t' / n') * (t / n))) v.
+Lemma set_cell_twice isz n t (n' t' : K) v :
+  isz n = false -> n <> 0 -> isz n' = false -> n' <> 0 ->
+  set_cell isz n' t' (set_cell isz n t v) = map (fmul ((t' / n') * (t / n))) v.
 Proof.
-  intros H1 H2 H3 H4. rewrite (set_cell_scaling is0 t' _ H3 H4). rewrite (set_cell_scaling is0 t v H1 H2).
+  intros H1 H2 H3 H4. rewrite (set_cell_scaling isz n' t' _ H3 H4). rewrite (set_cell_scaling isz n t v H1 H2).
   rewrite map_map. apply map_ext. intros x. ring.
 Qed.
 
@@ -182,17 +183,20 @@ Lemma set_norm_cellwise (f f' : field K) s ts j :
   (j < length (f_arr f))%nat -> (j < length ts)%nat ->
   nth j (f_arr f') [] = set_cell is0 (nrm (nth j (f_arr f) [])) (nth j ts (f0 K)) (nth j (f_arr f) []).
 Proof.
-  intros H Hts Hj Hj'. destruct (set_norm_ok _ _ H) as (ts' & Hts' & _ & _ & _ & _ & Ha).
+  intros H Hts Hj Hj'. destruct (set_norm_ok _ _ _ H) as (ts' & Hts' & _ & _ & _ & _ & Ha).
   rewrite Hts in Hts'. injection Hts' as <-. rewrite Ha.
   apply (nth_map2 (fun v t => set_cell is0 (nrm v) t v)); assumption.
 Qed.
+
+Lemma nth_repeat_lt {A} (a d : A) k j : (j < k)%nat -> nth j (repeat a k) d = a.
+Proof. revert j. induction k as [|k IH]; intros [|j] H; simpl; try lia; [reflexivity|apply IH; lia]. Qed.
 
 Lemma spec_values_const m (t : K) ts j :
   spec_values m (NConst t) = OK ts -> length ts = ncells m /\ ((j < ncells m)%nat -> nth j ts (f0 K) = t).
 Proof.
   simpl. intros H. injection H as <-. split.
   - apply repeat_length.
-  - intros _. apply nth_repeat_any.
+  - intros Hj. apply nth_repeat_lt. exact Hj.
 Qed.
 
 Lemma spec_values_arr m (l ts : list K) :
@@ -243,15 +247,15 @@ Lemma not_sticky (f f' : field K) os a :
 Proof.
   rewrite run_ops_app. destruct (run_ops nrm is0 close0 f os) as [f1|e]; simpl; [|discriminate].
   destruct (update_values f1 a) as [f2|e] eqn:E; simpl; [|discriminate].
-  intros H. injection H as <-. apply (update_values_verbatim _ _ E).
+  intros H. injection H as <-. apply (update_values_verbatim _ _ _ E).
 Qed.
 
 Lemma run_op_shape_inv (f f' : field K) o :
   run_op nrm is0 close0 f o = OK f' -> f_mesh f' = f_mesh f /\ f_nvdim f' = f_nvdim f /\ f_unit f' = f_unit f.
 Proof.
   destruct o as [s|a|vs]; simpl.
-  - intros H. destruct (set_norm_ok _ _ H) as (ts & _ & ? & ? & ? & _). auto.
-  - intros H. destruct (update_values_verbatim _ _ H) as (_ & ? & ? & ? & _). auto.
+  - intros H. destruct (set_norm_ok _ _ _ H) as (ts & _ & ? & ? & ? & _). auto.
+  - intros H. destruct (update_values_verbatim _ _ _ H) as (_ & ? & ? & ? & _). auto.
   - unfold set_valid. destruct vs as [|l|].
     + intros H; injection H as <-; auto.
     + destruct (length l =? ncells (f_mesh f))%nat; [|discriminate]. intros H; injection H as <-; auto.
@@ -264,20 +268,20 @@ Proof.
   revert f. induction os as [|o os IH]; intros f; simpl.
   - intros H; injection H as <-; auto.
   - destruct (run_op nrm is0 close0 f o) as [f1|e] eqn:E; simpl; [|discriminate].
-    intros H. destruct (IH _ H) as (? & ? & ?). destruct (run_op_shape_inv _ _ E) as (? & ? & ?).
+    intros H. destruct (IH _ H) as (? & ? & ?). destruct (run_op_shape_inv _ _ _ E) as (? & ? & ?).
     repeat split; congruence.
 Qed.
 
 (* two objects on the same mesh with the same component count – one that went through any history of
    norm assignments, one that did not – hold the same values after the same update *)
-Lemma update_forgets_history (f g f' g' : field K) os a :
+Lemma update_forgets_history (f g g' : field K) os a :
   run_ops nrm is0 close0 f os = OK g ->
-  update_values g a = OK g' -> update_values f a = OK f' /\ f_arr f' = f_arr g'.
+  update_values g a = OK g' -> exists f', update_values f a = OK f' /\ f_arr f' = f_arr g'.
 Proof.
-  intros H Hg. destruct (run_ops_shape_inv _ _ H) as (Hm & Hn & Hu).
+  intros H Hg. destruct (run_ops_shape_inv _ _ _ H) as (Hm & Hn & Hu).
   unfold update_values in *. rewrite Hm, Hn in Hg.
   destruct (arr_ok (f_mesh f) (f_nvdim f) a); [|discriminate].
-  injection Hg as <-. split; reflexivity.
+  injection Hg as <-. eexists. split; reflexivity.
 Qed.
 
 (* ---------- constructor order: values, then norm, then validity ---------- *)
@@ -317,7 +321,7 @@ Lemma mk_field_values m nvdim u a vs (f : field K) :
 Proof.
   unfold mk_field. destruct (nvdim =? 0)%nat; [discriminate|].
   destruct (update_values _ a) as [f1|e] eqn:E; simpl; [|discriminate].
-  destruct (update_values_verbatim _ _ E) as (Ha & Hm & Hn & Hu & _). simpl in *.
+  destruct (update_values_verbatim _ _ _ E) as (Ha & Hm & Hn & Hu & _). simpl in *.
   unfold set_valid. destruct vs as [|l|].
   - intros H; injection H as <-; auto.
   - destruct (length l =? ncells (f_mesh f1))%nat; [|discriminate]. intros H; injection H as <-; auto.
